@@ -886,3 +886,76 @@ def g_expected_nonempty(ctx, F, body, site):
         if not size:
             return False, "an ExpectedOneOfTokens payload built in %s may be empty (or cannot be sized)" % fn.path
     return n > 0, "" if n else "no construction found"
+
+
+# ------------------------------------------------------------------------------------------
+# guards for the repaired sites
+
+
+@guard("radix-range-checked")
+def g_radix(ctx, F, body, site):
+    t = body.term(site["bb"])
+    # the radix argument goes back (through `?`) to Option::filter(.., |r| (2..=36).contains(r))
+    filt = None
+    for d, p in common_deep_origins(body, t["args"][1]):
+        if d[0] == "call" and is_callee(body.term(d[1]), "std::option::Option::<T>::filter"):
+            filt = body.term(d[1])
+    if filt is None:
+        return False, "the radix handed to from_str_radix is not filtered by a range test"
+    cl = body.local_ty(op_local(filt["args"][1])).peel_refs()
+    cf = F.fn(cl.d.get("closure", "")) if cl.kind() == "closure" else None
+    if cf is None:
+        return False, "filter predicate not recognised"
+    ok = False
+    for bi, tt in cf.calls():
+        if is_callee(tt, "std::ops::RangeInclusive::<Idx>::contains") and tt["dest"]["l"] == 0:
+            for d, p in origins(cf, tt["args"][0]):
+                if d[0] == "promoted":
+                    pb = cf.promoteds()[d[1]]
+                    for b2, t2 in pb.calls():
+                        if is_callee(t2, "std::ops::RangeInclusive::<Idx>::new"):
+                            lo = t2["args"][0].get("const", {}).get("int")
+                            hi = t2["args"][1].get("const", {}).get("int")
+                            ok = lo is not None and hi is not None and int(lo) >= 2 and int(hi) <= 36
+    return ok, "" if ok else "the range test is not a sub-range of 2..=36"
+
+
+@guard("to-digit-radix-const")
+def g_to_digit(ctx, F, body, site):
+    t = body.term(site["bb"])
+    r = t["args"][1].get("const", {}).get("int") if len(t["args"]) > 1 else None
+    ok = r is not None and 2 <= int(r) <= 36
+    return ok, "" if ok else "the radix of to_digit is not a constant in 2..=36"
+
+
+@guard("reserve-diff-nonneg")
+def g_reserve_diff(ctx, F, body, site):
+    # new_len - len, under `i >= len` with new_len = i + 1 (checked)
+    bb = site["bb"]
+    for bi, blk in enumerate(body.blocks):
+        t = blk["term"]
+        if t["k"] != "switch":
+            continue
+        ol = op_local(t["on"])
+        for d in body.defs().get(ol, []) if ol is not None else []:
+            if d[0] == "stmt" and d[3]["rv"].get("bin") == "ge":
+                zero = [tg for v, tg in t["targets"] if v == "0"]
+                if zero and _dominated_by_edge(body, bb, bi, t["otherwise"]):
+                    adds = [b2 for b2, t2 in body.calls() if is_callee(t2, "core::num::<impl usize>::checked_add") and body.dominates(b2, bb)]
+                    if adds:
+                        return True, ""
+    return False, "the subtraction is not under `i >= len` with new_len = i.checked_add(1)?"
+
+
+@guard("resize-after-try-reserve")
+def g_resize_after_reserve(ctx, F, body, site):
+    bb = site["bb"]
+    for b2, t2 in body.calls():
+        if is_callee(t2, "try_reserve", "try_reserve_exact") and body.dominates(b2, bb):
+            # its result is checked: a Try::branch on it whose Continue arm dominates the resize
+            for b3, t3 in body.calls():
+                if callee_def(t3) == "std::ops::Try::branch" and flows_into(body, b2, t3["args"][0]):
+                    sw = tables.arms_complete(body, t3["t"])
+                    if sw and "Continue" in sw[2] and _dominated_by_edge(body, bb, t3["t"], sw[2]["Continue"]):
+                        return True, ""
+    return False, "the resize is not preceded by a checked try_reserve for the extension"
